@@ -62,9 +62,8 @@ func (mw *Window) Latest() (*api.Metric, error) {
 	// ring. Therefore this is just a read operation
 	// as well.
 	prevRing := mw.window.Prev()
-	mw.wMu.RUnlock()
-
 	last, ok = prevRing.Value.(*api.Metric)
+	mw.wMu.RUnlock()
 
 	if !ok || last == nil {
 		return nil, ErrNoMetrics
@@ -77,9 +76,8 @@ func (mw *Window) Latest() (*api.Metric, error) {
 // they were Added. That is, result[0] will be the last added
 // metric.
 func (mw *Window) All() []*api.Metric {
-	values := make([]*api.Metric, 0, mw.window.Len())
-
 	mw.wMu.RLock()
+	values := make([]*api.Metric, 0, mw.window.Len())
 	mw.window.Do(func(v interface{}) {
 		i, ok := v.(*api.Metric)
 		if ok {
